@@ -60,7 +60,27 @@ def m_lazy(tier):
 def m_clonefixed(tier):
     return dict(m_clone(tier), cfg="CfgFixed3", MaxLen=3, MaxLenB=3, MaxLazyDepth=1, MaxLazyN=2, alpha=["push", "pop", "clear", "clone", "ce_probe", "lazy"])
 
+def m_raw(tier):
+    # into_raw_parts / RawParts::clone / from_raw_parts round trips, repeated and interleaved with every element-wise operation
+    return dict(alpha=["push", "insert", "pop", "remove", "swap_remove", "clear", "get", "mutate", "raw", "ext_drop", "typed"],
+                MaxLen=2 if tier == "quick" else 3, MaxLenB=1, MaxExt=1, OneHandle=True, srcs=["wrapper", "raw"], sinks=["drop", "push", "ext"], timeout=6000)
+def m_rawempty(tier):
+    return dict(cfg="CfgFixed0", alpha=["push", "insert", "pop", "clear", "get", "raw"], MaxLen=1, MaxLenB=1, MaxExt=1, OneHandle=True, srcs=["wrapper", "raw"], sinks=["drop"])
+def m_wrong(tier):
+    # values of another runtime type offered to every checked entry point; downcast queries on every object kind
+    return dict(alpha=["push", "pop", "wrong", "downcast", "clear"], MaxLen=2 if tier == "quick" else 3, MaxLenB=1, MaxExt=0, OneHandle=True,
+                srcs=["wrapper"], sinks=["drop"], timeout=6000)
+def m_swap(tier):
+    return dict(alpha=["push", "pop", "swap", "ext_drop", "mutate", "hmutate"], MaxLen=2 if tier == "quick" else 3, MaxLenB=2, MaxExt=1, OneHandle=True,
+                srcs=["wrapper"], sinks=["drop"], timeout=6000)
+def m_spare(tier):
+    return dict(cfg="CfgHeapCap", alpha=["push", "pop", "spare", "cap", "clear"], MaxLen=3 if tier == "quick" else 4, MaxLenB=0, MaxCap=4 if tier == "quick" else 6, MaxExt=0,
+                srcs=["typed"], sinks=["drop"], OneHandle=True, timeout=6000)
+def m_sparefixed(tier):
+    return dict(cfg="CfgFixed3", alpha=["push", "pop", "spare", "clear"], MaxLen=3, MaxLenB=0, MaxExt=0, srcs=["typed"], sinks=["drop"], OneHandle=True)
+
 MODELS = {
+    "raw": m_raw, "rawempty": m_rawempty, "wrong": m_wrong, "swap": m_swap, "spare": m_spare, "sparefixed": m_sparefixed,
     "clone": m_clone,
     "lazy": m_lazy,
     "clonefixed": m_clonefixed,
@@ -110,8 +130,10 @@ def c07(tier):
     return [dict(model="elem", configs=cfgs(["heap8d", "heap160", "heap3n"], (R, D))), dict(model="range", configs=cfgs(["heap8d", "heap160", "heap3n"], (R, D)))]
 def c13(tier):
     if tier == "quick":
-        return [dict(model="elem", configs=cfgs(["heap8d", "heap3n"], (R,))), dict(model="iter", configs=cfgs(["heap8d", "heap3n"], (R,)))]
-    return [dict(model="elem", configs=cfgs(["heap8d", "heap3n", "heap160", "heap0d"], (R, D))), dict(model="iter", configs=cfgs(["heap8d", "heap3n", "heap160"], (R, D)))]
+        return [dict(model="elem", configs=cfgs(["heap8d", "heap3n"], (R,))), dict(model="iter", configs=cfgs(["heap8d", "heap3n"], (R,))),
+                dict(model="swap", configs=cfgs(["heap8d", "heap3n", "heap160"], (R,)))]
+    return [dict(model="elem", configs=cfgs(["heap8d", "heap3n", "heap160", "heap0d"], (R, D))), dict(model="iter", configs=cfgs(["heap8d", "heap3n", "heap160"], (R, D))),
+            dict(model="swap", configs=cfgs(["heap8d", "heap3n", "heap160", "heap12d", "stack24x3"], (R, D)))]
 
 def c06(tier):
     if tier == "quick":
@@ -156,7 +178,44 @@ def c09(tier):
         return [dict(model="lazy", configs=cfgs(["heap8c", "heap160"], (R,)))]
     return [dict(model="lazy", configs=cfgs(["heap8c", "heap160", "heap8css", "fence24d"], (R, D))), dict(model="clonefixed", configs=cfgs(["stackn3"], (R,)))]
 
+def c17(tier):
+    if tier == "quick":
+        return [dict(model="raw", configs=cfgs(["heap8d", "heap8c", "heap0d"], (R,))), dict(model="rawempty", configs=cfgs(["empty8d", "empty0c"], (R,)))]
+    return [dict(model="raw", configs=cfgs(["heap8d", "heap8c", "heap8css", "heap0d", "heap0c", "heap3n", "heap160"], (R, D))),
+            dict(model="rawempty", configs=cfgs(["empty8d", "empty0c"], (R, D)))]
+def c04(tier):
+    if tier == "quick":
+        return [dict(model="wrong", configs=cfgs(["heap8d", "heap8c"], (R,)) + cfgs(["stack8c"], (R,)))]
+    return [dict(model="wrong", configs=cfgs(["heap8d", "heap8c", "stack8c", "fence8d", "heap160", "heap3n"], (R, D)))]
+def c12(tier):
+    if tier == "quick":
+        return [dict(model="spare", configs=cfgs(["heap8d", "heap3n", "fence160", "heap0d"], (R,))), dict(model="sparefixed", configs=cfgs(["stack24x3", "stackn3"], (R,))),
+                dict(model="elem", configs=cfgs(["heap160a32", "heap64n", "heap1n"], (R,)))]
+    return [dict(model="spare", configs=cfgs(["heap8d", "heap3n", "heap1n", "heap16d", "heap32d", "heap64n", "heap160a32", "fence160", "fence3n", "heap0d"], (R, D))),
+            dict(model="sparefixed", configs=cfgs(["stack24x3", "stackn3", "stack8x3p"], (R, D))),
+            dict(model="elem", configs=cfgs(["heap160a32", "heap64n", "heap1n", "heap16d", "heap32d"], (R,)))]
+
 PLAN = {
+    "C17": dict(campaigns=c17, level="model_checking",
+                claim="Every state of the bounded model x into_raw_parts -> (field-wise RawParts::clone) -> from_raw_parts on Heap and on the "
+                      "zero-capacity Empty backend, every constraint class exercised by the configurations, repeated and interleaved with every "
+                      "element-wise operation (the rebuilt vector is kept apart in the exploration so every operation is replayed on it): TLC "
+                      "judges that nothing is destroyed or (de)allocated, that the parts and their clone report the true length, capacity, layout, "
+                      "type id and drop/clone functions, and that all further events match the contract.",
+                rule="cases = all transitions of the raw-parts models; non-trivial = raw_roundtrip at depth >= 2 and every operation on a rebuilt vector"),
+    "C04": dict(campaigns=c04, level="model_checking",
+                claim="Every state of the bounded model x a value of another runtime type (two types with identical size and alignment, one of a "
+                      "different size) offered through wrapper and raw-pointer sources to push, insert(i), element swap (both orders) and as the "
+                      "j-th item of a splice, plus downcast queries of the vector (ref/mut view), element references and removal handles for the "
+                      "real type and five others: TLC judges panic-and-unchanged, the offered value destroyed once, validity after splice, and "
+                      "downcast success exactly for the real type.",
+                rule="cases = all transitions of the wrong-type model; non-trivial = a *_wrong or downcast_q action at depth >= 2"),
+    "C12": dict(campaigns=c12, level="model_checking",
+                claim="Every (len, capacity) state of the bounded model: after every step the typed slice, as_bytes and the erased iterator must "
+                      "decode to the contract's elements (as_bytes length = len x size), the storage base must be aligned for the element type; "
+                      "spare_bytes_mut / spare_capacity_mut must start exactly len x size bytes after the base and span (capacity - len) x size, and "
+                      "values written through them become exactly the new tail after set_len; layouts include size 1/3 and alignment 16/32/64.",
+                rule="cases = all transitions of the spare models and the elem model on over-aligned / odd-sized layouts; non-trivial = spare_write at depth >= 2"),
     "C08": dict(campaigns=c08, level="model_checking",
                 claim="Every state of the bounded two-vector model x clone() (replacing the other vector), clone_empty and clone_empty_in on "
                       "{same, Heap, Stack, StackN, instrumented} target backends, on Cloneable constraint sets and heap, instrumented and fixed-"
